@@ -141,4 +141,173 @@ theorem div_div_self (K n : Nat) (hn : 0 < n) (h : n * n ≤ K) : K / (K / n) = 
       _ ≤ n * (K / n) + K / n := Nat.add_le_add_left hq _
       _ = (n + 1) * (K / n) := by rw [Nat.succ_mul]
 
+/-- Running a conversion plan is `convert` (the driver's batch commands evaluate plans). -/
+theorem convert_eq_plan (R N : ArithTy) (m : Mag) (x : Val) :
+    convert R N m x = (planConvert R N m).run x := by
+  unfold convert ConvPlan.run planConvert
+  simp only []
+  split
+  · rfl
+  · cases hsc : staticCast x (R.common N) with
+    | ub w => rfl
+    | nocompile w => rfl
+    | ok v =>
+      simp only [Res.bind]
+      cases hC : R.common N with
+      | int t => rfl
+      | flt f =>
+        cases v with
+        | i n => rfl
+        | f y =>
+          simp only [applyMagnitude, applyMagF]
+          cases magOp f m <;> rfl
+
+theorem prec_pos (f : FltTy) : 0 < f.prec := by cases f <;> decide
+theorem prec_le_emax (f : FltTy) : (f.prec : Int) ≤ f.emax + 1 := by cases f <;> decide
+
+theorem ilog2_nat (a : Nat) (ha : a ≠ 0) : ilog2 a 1 = (Nat.log2 a : Int) := by
+  unfold ilog2
+  have h1 : Nat.log2 1 = 0 := by decide
+  simp only [h1]
+  have hk : ((Nat.log2 a : Int) - ((0 : Nat) : Int)) = (Nat.log2 a : Int) := by simp
+  rw [hk]
+  have : pow2Le (Nat.log2 a : Int) a 1 = true := by
+    unfold pow2Le
+    have h0 : (Nat.log2 a : Int) ≥ 0 := by omega
+    simp only [h0, if_true, Int.toNat_natCast, Nat.mul_one, decide_eq_true_eq]
+    exact Nat.log2_self_le ha
+  rw [this]; rfl
+
+/-- Dividing `a` by `2^ex` with `ex ≤ 0` and a unit denominator is exact. -/
+theorem roundHalfEven_nonpos (a : Nat) (j : Nat) : roundHalfEven a 1 (-(j : Int)) = a * 2 ^ j := by
+  unfold roundHalfEven
+  by_cases hj : j = 0
+  · subst hj; simp [Nat.mod_one]
+  · have h1 : ¬ (-(j : Int) ≥ 0) := by omega
+    simp only [h1, if_false, Int.neg_neg, Int.toNat_natCast, Nat.div_one, Nat.mod_one]
+    simp
+
+theorem pow2_neg_nat (j : Nat) : pow2 (-(j : Int)) = 1 / ((2 ^ j : Nat) : Rat) := by
+  unfold pow2
+  by_cases hj : j = 0
+  · subst hj; decide +kernel
+  · have h1 : ¬ (-(j : Int) ≥ 0) := by omega
+    rw [if_neg h1]; simp
+
+theorem pow2_nat (j : Nat) : pow2 (j : Int) = ((2 ^ j : Nat) : Rat) := by
+  unfold pow2
+  have h1 : (j : Int) ≥ 0 := by omega
+  simp [h1]
+
+theorem scale_back (a j : Nat) : ((a * 2 ^ j : Nat) : Rat) * (1 / ((2 ^ j : Nat) : Rat)) = (a : Rat) := by
+  have hne : ((2 ^ j : Nat) : Rat) ≠ 0 := by
+    intro h
+    have : (2 ^ j : Nat) = 0 := by exact_mod_cast h
+    have := Nat.two_pow_pos j
+    omega
+  rw [Rat.natCast_mul, Rat.div_def, Rat.one_mul, Rat.mul_assoc, Rat.mul_inv_cancel _ hne, Rat.mul_one]
+
+/-- A positive integer below `2^p` is represented exactly. -/
+theorem rnePos_nat (f : FltTy) (a : Nat) (ha : a ≠ 0) (hlt : a < 2 ^ f.prec) :
+    rnePos f a 1 = some (a : Rat) := by
+  unfold rnePos
+  rw [ilog2_nat a ha]
+  have hl : Nat.log2 a < f.prec := (Nat.log2_lt ha).2 hlt
+  have hp := prec_le_emax f
+  have hp0 := prec_pos f
+  have he1 : 1 ≤ f.emax := by cases f <;> decide
+  -- the quantum exponent is non-positive
+  obtain ⟨j, hj⟩ : ∃ j : Nat, max ((Nat.log2 a : Int) - (f.prec : Int) + 1) (1 - f.emax - (f.prec : Int) + 1) = -(j : Int) := by
+    refine ⟨(-(max ((Nat.log2 a : Int) - (f.prec : Int) + 1) (1 - f.emax - (f.prec : Int) + 1))).toNat, ?_⟩
+    have : max ((Nat.log2 a : Int) - (f.prec : Int) + 1) (1 - f.emax - (f.prec : Int) + 1) ≤ 0 := by
+      apply Int.max_le.2; constructor <;> omega
+    omega
+  simp only [hj, roundHalfEven_nonpos, pow2_neg_nat, scale_back]
+  have hnot : ¬ ((a : Rat) ≥ pow2 (f.emax + 1)) := by
+    have he : f.emax + 1 = ((f.emax + 1).toNat : Int) := by
+      have : 0 ≤ f.emax + 1 := by cases f <;> decide
+      omega
+    rw [he, pow2_nat]
+    intro h
+    have h' : 2 ^ (f.emax + 1).toNat ≤ a := Rat.natCast_le_natCast.1 h
+    have hpe : f.prec ≤ (f.emax + 1).toNat := by omega
+    have : 2 ^ f.prec ≤ 2 ^ (f.emax + 1).toNat := Nat.pow_le_pow_right (by decide) hpe
+    omega
+  simp [hnot]
+
+/-- **Integers below `2^p` in absolute value convert exactly** (`static_cast<double>(int)` etc.). -/
+theorem rne_int_exact (f : FltTy) (n : Int) (h : n.natAbs < 2 ^ f.prec) : rne f (n : Rat) = .fin (n : Rat) := by
+  unfold rne
+  by_cases h0 : n = 0
+  · subst h0; simp
+  · have hq0 : ¬ ((n : Rat) = 0) := by
+      intro h'; apply h0; exact_mod_cast h'
+    simp only [hq0, if_false, Rat.num_intCast, Rat.den_intCast]
+    by_cases hpos : (n : Rat) > 0
+    · have hn : 0 < n := by exact_mod_cast hpos
+      simp only [hpos, if_true]
+      have hto : n.toNat = n.natAbs := by omega
+      rw [hto, rnePos_nat f n.natAbs (by omega) h]
+      have : ((n.natAbs : Nat) : Rat) = (n : Rat) := by
+        have : ((n.natAbs : Nat) : Int) = n := by omega
+        rw [← Rat.intCast_natCast, this]
+      simp [this]
+    · have hn : n < 0 := by
+        have : ¬ (0 < n) := by intro h'; apply hpos; exact_mod_cast h'
+        omega
+      simp only [hpos, if_false]
+      have hto : (-n).toNat = n.natAbs := by omega
+      rw [hto, rnePos_nat f n.natAbs (by omega) h]
+      have : -((n.natAbs : Nat) : Rat) = (n : Rat) := by
+        have : ((n.natAbs : Nat) : Int) = -n := by omega
+        rw [← Rat.intCast_natCast, this, Rat.intCast_neg, Rat.neg_neg]
+      simp [this]
+
+
+theorem fnApply_int (fn : RFn) (z : Int) : fn.apply (.fin (z : Rat)) = .fin (z : Rat) := by
+  cases fn with
+  | floor => simp [RFn.apply, FVal.floor, Rat.floor_intCast]
+  | ceil =>
+    simp only [RFn.apply, FVal.ceil]
+    have : -(z : Rat) = ((-z : Int) : Rat) := by simp [Rat.intCast_neg]
+    rw [this, Rat.floor_intCast]; simp
+  | round =>
+    simp only [RFn.apply, FVal.round]
+    have hhalf : ((1 : Rat) / 2).floor = 0 := by decide +kernel
+    by_cases hz : (z : Rat) ≥ 0
+    · simp only [hz, if_true]
+      have : ((z : Rat) + 1 / 2) = (1 / 2 : Rat) + (z : Rat) := Rat.add_comm _ _
+      rw [this, Rat.floor_add_intCast, hhalf]; simp
+    · simp only [hz, if_false]
+      have e : -(z : Rat) + 1 / 2 = (1 / 2 : Rat) + ((-z : Int) : Rat) := by
+        rw [Rat.intCast_neg, Rat.add_comm]
+      rw [e, Rat.floor_add_intCast, hhalf]; simp
+
+/-- **Integral input, integer ratio, exact conversion.**  If the compile-time constant
+`get_value<double>(K)` is the integer `N` and both `x` and `x·N` are below `2^53` in absolute
+value, then `round_in / floor_in / ceil_in` return exactly `x·N` (every step of the pipeline is
+exact). -/
+theorem roundIn_int_mul_exact (fn : RFn) (t : IntTy) (K : Mag) (N : Nat) (hK : K.isInteger = true)
+    (hgv : getValueF .f64 K = some (.fin (N : Rat))) (x : Int)
+    (hx : x.natAbs < 2 ^ 53) (hxn : (x * N).natAbs < 2 ^ 53) :
+    roundIn fn (.int t) K (.i x) = .ok (.fin ((x * N : Int) : Rat)) := by
+  have hp : FltTy.f64.prec = 53 := rfl
+  have e1 : rne .f64 (x : Rat) = .fin (x : Rat) := rne_int_exact .f64 x (by rw [hp]; exact hx)
+  have e2 : rne .f64 (((x * N : Int)) : Rat) = .fin ((x * N : Int) : Rat) := rne_int_exact .f64 _ (by rw [hp]; exact hxn)
+  have hmul : (x : Rat) * (N : Rat) = ((x * N : Int) : Rat) := by
+    rw [Rat.intCast_mul, Rat.intCast_natCast]
+  have hcat : categorizeMag K = .intMul := by simp [categorizeMag, hK]
+  have hconv : convert (.int t) (.flt .f64) K (.i x) = .ok (.f (.fin ((x * N : Int) : Rat))) := by
+    unfold convert
+    have hdec : (K.isEmpty && decide (ArithTy.int t = ArithTy.flt FltTy.f64)) = false := by simp
+    simp only [hdec, Bool.false_eq_true, if_false, ArithTy.common, staticCast, Res.bind_ok, e1, applyMagnitude, applyMagF,
+      magOp, hcat, hgv, FOp.apply, FVal.mul, hmul, e2, FVal.toFlt]
+  unfold roundIn roundArg
+  simp only [roundingRep, hconv, Res.bind_ok, fnApply_int]
+
+/-- Same unit (`round_in(meters, meters(n))`): the result is `n` itself. -/
+theorem roundIn_int_sameunit (fn : RFn) (t : IntTy) (x : Int) (hx : x.natAbs < 2 ^ 53) :
+    roundIn fn (.int t) [] (.i x) = .ok (.fin (x : Rat)) := by
+  have := roundIn_int_mul_exact fn t [] 1 rfl rfl x hx (by simpa using hx)
+  simpa using this
 end Au.C15
